@@ -200,7 +200,9 @@ def xmlSafe(value: str | None) -> str:
     """
     if value is None:
         return ""
-    return value.replace('&', '&amp;')
+    value = str(value).replace('&', '&amp;')
+    value = value.replace('<', '&lt;').replace('>', '&gt;')
+    return value.replace('"', '&quot;').replace("'", '&apos;')
 
 @custom_tags.app_template_filter()
 def sortedAttributes(value):
